@@ -268,76 +268,69 @@ func (cc *ClientConn) writeOKResultStream(status uint16, rs *mysql.Result, conti
 	} else {
 		status = status &^ (1 << 3)
 	}
-	if isBinary {
-		if err := rs.BuildBinaryResultSet(); err != nil {
-			log.Warn("write result stream, build binary result set error: %v", err)
-			return err
-		}
-	}
-	// 提前拷贝，防止 writeOKResult 中 rs 释放
-	var globalFields []*mysql.Field
-	if rs.Resultset != nil {
-		globalFields = rs.Resultset.Fields
-	}
-	// rows sent so far: the row limit is a limit on the whole result, not on each chunk
-	deliveredRows := 0
-	if rs.Resultset != nil {
-		deliveredRows = len(rs.Resultset.RowDatas)
-	}
-	err := cc.writeOKResult(status, continueConn.MoreRowsExist(), rs)
-	if err != nil {
-		log.Warn("write result stream, write ok result error: %v", err)
-		return err
-	}
-
-	for continueConn.MoreRowsExist() {
-		result := mysql.ResultPool.Get()
-		result.Resultset = &mysql.Resultset{
-			Fields: globalFields,
-		}
-		if err = continueConn.FetchMoreRows(result, maxRows); err != nil {
-			log.Warn("write result stream, more rows exist, fetch more rows error: %v", err)
-			return err
-		}
-		deliveredRows += len(result.RowDatas)
-		if maxRows > 0 && deliveredRows > maxRows {
-			log.Warn("write result stream, more rows exist, rows limit %d exceeded", maxRows)
-			return fmt.Errorf("%v %d", sqlerr.ErrRowsLimitExceeded, maxRows)
-		}
+	// one round per result of the response. A further result (CALL, multi-statement text) can be as
+	// large as the first one: the backend reader leaves its rows beyond mysql.MaxPayloadLen pending
+	// too, and they are fetched and sent chunk by chunk in the same way.
+	for {
 		if isBinary {
-			if err = result.BuildBinaryResultSet(); err != nil {
-				log.Warn("write result stream, more rows exist, build binary result set error: %v", err)
+			if err := rs.BuildBinaryResultSet(); err != nil {
+				log.Warn("write result stream, build binary result set error: %v", err)
 				return err
 			}
 		}
-		if err = cc.writeRowsWithEOF(result, continueConn.MoreRowsExist(), status); err != nil {
-			log.Warn("write result stream, more rows exist, write rows with EOF error: %v", err)
+		// 提前拷贝，防止 writeOKResult 中 rs 释放
+		var globalFields []*mysql.Field
+		if rs.Resultset != nil {
+			globalFields = rs.Resultset.Fields
+		}
+		// rows sent so far: the row limit is a limit on the whole result, not on each chunk
+		deliveredRows := 0
+		if rs.Resultset != nil {
+			deliveredRows = len(rs.Resultset.RowDatas)
+		}
+		err := cc.writeOKResult(status, continueConn.MoreRowsExist(), rs)
+		if err != nil {
+			log.Warn("write result stream, write ok result error: %v", err)
 			return err
 		}
-	}
 
-	// handle multi rs
-	for continueConn.MoreResultsExist() {
+		for continueConn.MoreRowsExist() {
+			result := mysql.ResultPool.Get()
+			result.Resultset = &mysql.Resultset{
+				Fields: globalFields,
+			}
+			if err = continueConn.FetchMoreRows(result, maxRows); err != nil {
+				log.Warn("write result stream, more rows exist, fetch more rows error: %v", err)
+				return err
+			}
+			deliveredRows += len(result.RowDatas)
+			if maxRows > 0 && deliveredRows > maxRows {
+				log.Warn("write result stream, more rows exist, rows limit %d exceeded", maxRows)
+				return fmt.Errorf("%v %d", sqlerr.ErrRowsLimitExceeded, maxRows)
+			}
+			if isBinary {
+				if err = result.BuildBinaryResultSet(); err != nil {
+					log.Warn("write result stream, more rows exist, build binary result set error: %v", err)
+					return err
+				}
+			}
+			if err = cc.writeRowsWithEOF(result, continueConn.MoreRowsExist(), status); err != nil {
+				log.Warn("write result stream, more rows exist, write rows with EOF error: %v", err)
+				return err
+			}
+		}
+
+		// handle multi rs
+		if !continueConn.MoreResultsExist() {
+			return nil
+		}
 		rs, err = continueConn.ReadMoreResult(maxRows)
 		if err != nil {
 			log.Warn("write result stream, more results exist, read more result error: %v", err)
 			return err
 		}
-
-		if isBinary {
-			if err = rs.BuildBinaryResultSet(); err != nil {
-				log.Warn("write result stream, more results exist, build binary result set error: %v", err)
-				return err
-			}
-		}
-		// TODO: multi statement may have large result
-		err = cc.writeOKResult(rs.Status, false, rs)
-		if err != nil {
-			log.Warn("write result stream, more results exist, write ok result error: %v", err)
-			return err
-		}
+		status = rs.Status
 	}
-	return nil
 }
 
 // 写入结果集后，不能再引用结果集
